@@ -210,6 +210,8 @@ where
     #[inline(always)]
     pub fn unchecked_read_at(&self, index: usize, reader: &Reader) -> T {
         let ptr = reader.prefixed(HEADER_OFFSET).as_ptr();
+        #[cfg(feature = "verif")]
+        reader.verif_access(HEADER_OFFSET + index * Self::SIZE_OF_T, Self::SIZE_OF_T, "unchecked_read_at");
         unsafe { S::read_from_ptr(ptr, index * Self::SIZE_OF_T) }
     }
 
@@ -482,6 +484,8 @@ where
             let val = if unlikely(update_iter.peek().is_some_and(|&(&k, _)| k == i)) {
                 update_iter.next().unwrap().1.clone()
             } else {
+                #[cfg(feature = "verif")]
+                reader.verif_access(HEADER_OFFSET + byte_off, Self::SIZE_OF_T, "fold_dirty");
                 unsafe { S::read_from_ptr(data_ptr, byte_off) }
             };
             byte_off += Self::SIZE_OF_T;
@@ -532,6 +536,8 @@ where
                 update_iter.next().unwrap().1.clone()
             } else {
                 // SAFETY: i < stored_len, reader holds mmap guard
+                #[cfg(feature = "verif")]
+                reader.verif_access(HEADER_OFFSET + byte_off, Self::SIZE_OF_T, "try_fold_dirty");
                 unsafe { S::read_from_ptr(data_ptr, byte_off) }
             };
             byte_off += Self::SIZE_OF_T;
